@@ -1537,7 +1537,7 @@ func emit() string {
 			if i == len(f.Ops)-1 {
 				sep = ""
 			}
-			fmt.Fprintf(&b, "  mkOp %s %s %s %d %s %s [%s] %d %s %s %s%s\n", o.Kind, o.Role, coqBool(o.NB), o.Sel, coqBool(o.Loop), coqBool(o.Defer), strings.Join(ps, "; "), o.Line, q(o.Callee), q(o.Msg), q(o.Txt), sep)
+			fmt.Fprintf(&b, "  mkOp %s %s %s %d %s %s [%s] %d %s %s %s%s\n", o.Kind, o.Role, coqBool(o.NB), o.Sel, coqBool(o.Loop), coqBool(o.Defer), strings.Join(ps, "; "), o.Line, q(o.Callee), q(o.Msg), q(""), sep)
 		}
 		b.WriteString("].\n\n")
 	}
